@@ -43,7 +43,9 @@ A_BOUND = "conformance of the code is established only on the vectors and traces
 A_OBS = "the Rust replayer reports observations faithfully (it contains no parsing logic; byte classes come from Bytes.tla)"
 RULE_VEC = ("vectors are TLC-generated behaviours of spec/Gen.tla (every visited state = one input prefix with its expected "
             "result); each is pushed through the real parser and judged under this property's projection; "
-            "non-trivial = non-empty input; all vectors of a run are distinct TLC states")
+            "non-trivial = non-empty input; distinct = distinct (kind, option bits, capacity, bytes), counted from 64-bit "
+            "hashes over all replay steps of the run (a vector replayed in several modes / profiles / backends counts once); "
+            "traces (feed inputs, sessions, operation traces, scan events, client programs, cold starts) are added by their number")
 
 
 # ---------------------------------------------------------------------------
@@ -85,6 +87,10 @@ def c08(res):
 def c09(res):
     t = res.tier
     mc_head(res, "language-chunk", invs=["InvLanguage", "InvFraming"], kinds='{"chunk"}', L=fam(t, "3", "4"), alpha=CHUNK14)
+    # no overflow with at most 16 digits, for unbounded integers; one digit more is refuted
+    apalache_step(res, "chunk-base", "ApaChunk", "Init", "Safe", length=0)
+    apalache_step(res, "chunk-step", "ApaChunk", "IndInit", "Safe", length=1)
+    apalache_step(res, "chunk-17-digits", "ApaChunk", "IndInit", "NoOverflow", nxt="NextLoose", length=1, expect_violation=True)
     for f in fam(t, ["byte_q", "ext_q", "lane_q", "chunk_q", "digits"], ["byte_t", "ext_t", "lane_t", "chunk_t", "digits"]):
         replay_step(res, f, kinds=K_CHUNK, modes="base")
         replay_step(res, f, kinds=K_CHUNK, modes="base", profile="dbgchk")
@@ -94,7 +100,7 @@ def c09(res):
 def c10(res):
     t = res.tier
     mc_head(res, "errkind", invs=["InvLanguage"], L=fam(t, "1", "2"), caps="{0, 1, 2, 100000}")
-    for f in fam(t, ["byte_q", "ext_q", "lines_q", "methods", "versions"], ["byte_t", "ext_t", "lines_t", "hdrext_t", "methods", "versions"]):
+    for f in fam(t, ["byte_q", "ext_q", "lines_q", "methods", "versions", "walk_q"], ["byte_t", "ext_t", "lines_t", "hdrext_t", "methods", "versions", "walk_t"]):
         replay_step(res, f, kinds=HEADS, modes="base")
     feed_traces(res, fam(t, 250000, 3000000), kinds="0,1,2")
 
@@ -102,7 +108,8 @@ def c10(res):
 def c11(res):
     t = res.tier
     mc_head(res, "honest-partial", invs=["InvHonest", "InvDeferredClosed"], L=fam(t, "1", "2"), caps="{0, 1, 2, 100000}")
-    for f in fam(t, ["byte_q", "ext_q", "chunk_q", "methods", "versions"], ["byte_t", "ext_t", "chunk_t", "lane_t", "methods", "versions"]):
+    parser_refinement(res, fam(t, "3", "4"), which=fam(t, ("status-line", "chunk-size"), None))
+    for f in fam(t, ["byte_q", "ext_q", "chunk_q", "methods", "versions", "walk_q"], ["byte_t", "ext_t", "chunk_t", "lane_t", "methods", "versions", "walk_t"]):
         replay_step(res, f, modes="completion")
     feed_traces(res, fam(t, 250000, 3000000), kinds="0,1,2,3")
 
@@ -111,7 +118,8 @@ def c02(res):
     t = res.tier
     mc_head(res, "streaming", invs=["InvPast", "InvConsumed"], props=["PropAbsorbing", "PropFieldsMonotone", "PropHeadersAppendOnly"],
             L=fam(t, "1", "2"), caps="{0, 1, 2, 100000}")
-    for f in fam(t, ["byte_q", "ext_q", "chunk_q", "methods", "versions", "reasons"], ["byte_t", "ext_t", "chunk_t", "lines_t", "methods", "versions", "reasons"]):
+    parser_refinement(res, fam(t, "3", "4"), which=fam(t, ("req-line", "header-block"), None))
+    for f in fam(t, ["byte_q", "ext_q", "chunk_q", "methods", "versions", "reasons", "walk_q"], ["byte_t", "ext_t", "chunk_t", "lines_t", "methods", "versions", "reasons", "walk_t"]):
         replay_step(res, f, modes="extend")
     feed_traces(res, fam(t, 250000, 3000000), kinds="0,1,2,3")
 
@@ -119,7 +127,7 @@ def c02(res):
 def c03(res):
     t = res.tier
     mc_head(res, "framing", invs=["InvFraming"], L=fam(t, "2", "3"), caps=fam(t, "{1, 100000}", "{0, 1, 2, 100000}"))
-    for f in fam(t, ["byte_q", "ext_q", "lane_q", "lines_q", "chunk_q", "methods", "versions"], ["byte_t", "ext_t", "lane_t", "lines_t", "chunk_t", "hdrext_t", "methods", "versions"]):
+    for f in fam(t, ["byte_q", "ext_q", "lane_q", "lines_q", "chunk_q", "methods", "versions", "walk_q"], ["byte_t", "ext_t", "lane_t", "lines_t", "chunk_t", "hdrext_t", "methods", "versions", "walk_t"]):
         replay_step(res, f, modes="base")
     feed_traces(res, fam(t, 250000, 3000000), kinds="0,1,2,3")
 
@@ -137,7 +145,7 @@ def c04(res):
 def c05(res):
     t = res.tier
     mc_head(res, "hygiene", invs=["InvHygiene"], L=fam(t, "2", "3"))
-    for f in fam(t, ["byte_q", "lane_q", "ext_q", "methods", "versions", "reasons"], ["byte_t", "lane_t", "ext_t", "ext17_t", "hdrext_t", "methods", "versions", "reasons"]):
+    for f in fam(t, ["byte_q", "lane_q", "ext_q", "methods", "versions", "reasons", "walk_q"], ["byte_t", "lane_t", "ext_t", "ext17_t", "hdrext_t", "methods", "versions", "reasons", "walk_t"]):
         replay_step(res, f, kinds=HEADS, modes="base")
     feed_traces(res, fam(t, 250000, 3000000), kinds="0,1,2")
 
@@ -213,16 +221,18 @@ def c19(res):
 def c01(res):
     t = res.tier
     mc_head(res, "total", invs=["InvTotal", "InvConsumed"], L="1", caps="{0, 1, 2, 100000}")
-    for f in fam(t, ["byte_q", "ext_q", "lane_q", "len_q", "lines_q", "methods", "versions"], ["byte_t", "ext_t", "lane_t", "len_t", "lines_t", "chunk_t", "methods", "versions"]):
+    for f in fam(t, ["byte_q", "ext_q", "lane_q", "len_q", "lines_q", "methods", "versions", "walk_q"], ["byte_t", "ext_t", "lane_t", "len_t", "lines_t", "chunk_t", "methods", "versions", "walk_t"]):
         replay_step(res, f, modes="places,entries")
         replay_step(res, f, modes="places", profile="dbgchk")
     for b in (2, 3):
         replay_step(res, fam(t, "lane_q", "lane_t"), modes="places", backend=b)
     mc_step(res, "cursor-contract", "MCCursor", "SPECIFICATION MCSpecC\nCONSTANT MaxLen = 6\nINVARIANT IndInv\nPROPERTY Forward\nCHECK_DEADLOCK FALSE\n", workers=4)
+    cursor_inductive(res)
     op_traces(res, fam(t, 6000, 60000), backends=(None, 2, 3))
     if t == "thorough":
         op_traces(res, 20000, backends=(None,), profile="dbgchk")
         work_traces(res, [65536, 1048576])
+        parser_refinement(res, "4")
 
 
 VARIANTS = {
@@ -721,8 +731,15 @@ def parser_refinement(res, n, which=None):
         mc_step(res, "parser-" + label, "MCParser", cfg, workers=12, timeout=3000)
 
 
+def cursor_inductive(res):
+    apalache_step(res, "cursor-base", "ApaCursor", "CInit", "IndInv", length=0)
+    apalache_step(res, "cursor-step", "ApaCursor", "IndInit", "IndInv", length=1)
+    apalache_step(res, "cursor-reads-inside", "ApaCursor", "IndInit", "ReadsInside", length=1)
+
+
 def c20(res):
     t = res.tier
+    cursor_inductive(res)
     mc_step(res, "cursor-contract", "MCCursor", "SPECIFICATION MCSpecC\nCONSTANT MaxLen = %s\nINVARIANT IndInv\nPROPERTY Forward\nCHECK_DEADLOCK FALSE\n" % fam(t, "6", "9"), workers=4)
     parser_refinement(res, fam(t, "3", "4"), which=fam(t, ("req-line", "resp-headers-all-options", "chunk-size"), None))
     work_traces(res, fam(t, [4096, 65536], [4096, 65536, 1048576]), backends=fam(t, (None,), (None, 2, 3)))
